@@ -164,6 +164,48 @@ func checkC20(c *Check) {
 		}
 	}
 	c.Expect("7/returns-handle", 8)
+
+	// ---------- 8: limits written stay in force ----------
+	// the cpuset bootstrap copies the parent's value into a group only while the group's own value is empty: the
+	// write of <path>/<name> is guarded by an emptiness test of what was read from that same file
+	if cp := p.Func(cg, "copyCgroupPropertyFromParent"); cp == nil {
+		c.Undecided("8/limits-stay", cg+".copyCgroupPropertyFromParent", "-", "function not found")
+	} else {
+		cd := controlDeps(cp)
+		nW := 0
+		for _, ci := range callInstrs(cp) {
+			n, _ := calleeOf(ci)
+			if n != "os.WriteFile" {
+				continue
+			}
+			nW++
+			target := describe(ci.Common().Args[0])
+			// the read of the same file
+			var own ssa.Value
+			for _, c2 := range callInstrs(cp) {
+				if n2, _ := calleeOf(c2); n2 == "os.ReadFile" && describe(c2.Common().Args[0]) == target {
+					if v, ok := c2.(ssa.Value); ok && dominatesInstr(c2, ci) {
+						own = v
+					}
+				}
+			}
+			okGuard := false
+			g := cd.guardOf(ci.Block())
+			if own != nil {
+				for _, a := range Support(g) {
+					if strings.Contains(a, describe(own)) && strings.Contains(a, "TrimSpace(") && strings.HasSuffix(a, "== 0") {
+						if v, _, _ := Valid(fImp(g, fLit(a))); v {
+							okGuard = true
+						}
+					}
+				}
+			}
+			c.Cond(okGuard, "8/limits-stay", fmt.Sprintf("%s.%s:write#%d", cg, cp.Name(), nW), p.Pos(ci.Pos()), "the group's own value is overwritten only when it is empty",
+				"the bootstrap writes "+target+" without having found that file empty (guard "+g.String()+"): re-opening a group resets a cpuset that was already narrowed to its parent's wider set")
+		}
+		c.Cond(nW >= 1, "8/limits-stay", cg+"."+cp.Name()+":writes", p.Pos(cp.Pos()), "bootstrap write found", "no write found in the cpuset bootstrap")
+	}
+	c.Expect("8/limits-stay", 2)
 }
 
 func blockIsErrBranch(b *ssa.BasicBlock) bool {
